@@ -16,6 +16,8 @@ class SocketIO:
     def __init__(self, sock, execmodel: ExecModel) -> None:
         self.sock = sock
         self.execmodel = execmodel
+        # sendall() of a large frame is not atomic, serialize concurrent writers
+        self._writelock = execmodel.Lock()
         socket = execmodel.socket
         try:
             # IPTOS_LOWDELAY
@@ -35,7 +37,8 @@ class SocketIO:
         return buf
 
     def write(self, data: bytes) -> None:
-        self.sock.sendall(data)
+        with self._writelock:
+            self.sock.sendall(data)
 
     def close_read(self) -> None:
         try:
